@@ -31,6 +31,9 @@ type Prelude struct {
 }
 
 type Engine struct {
+	// obligations listed as open known findings: a failing assertion among them is not cut
+	// (assumed) after its check, so that it cannot make what follows vacuous
+	openKF map[string]bool
 	repo          string
 	modPath       string
 	fset          *token.FileSet
